@@ -2,6 +2,7 @@ import FlatccModel.Util
 import FlatccModel.Num
 import FlatccModel.ScanSwap
 import FlatccModel.Refmap
+import FlatccModel.Reader
 /-! `fmodel`: executes the model's definitions on protocol lines (stdin → stdout, one result line per op line). -/
 open Flatcc Flatcc.Util
 
@@ -117,6 +118,93 @@ def refmapOp (args : List String) : String :=
     ",".intercalate outs.reverse ++ s!" b{m.rm.buckets} c{m.count} inv={invAll && invOk murmur m} spec={specAll}"
   | _ => "bad-op"
 
+/-! ### verifier / reader -/
+open Flatcc.Verifier in
+def parseField (s : String) : Field :=
+  match s.splitOn ":" with
+  | id :: req :: kind :: args =>
+    let a (i : Nat) := natArg (args.getD i "0")
+    let k : Kind := match kind with
+      | "s" => .scalar (a 0) (a 1)
+      | "str" => .string
+      | "v" => .vector (a 0) (a 1) (a 2)
+      | "sv" => .stringVector
+      | "t" => .table (a 0 % 16)
+      | "tv" => .tableVector (a 0 % 16)
+      | "u" => .union (a 0 % 16)
+      | _ => .unionVector (a 0 % 16)
+    { id := natArg id, required := natArg req != 0, kind := k }
+  | _ => { id := 0, required := false, kind := .string }
+
+open Flatcc.Verifier in
+def parseMember (s : String) : Nat × Member :=
+  match s.splitOn ":" with
+  | code :: kind :: args =>
+    let a (i : Nat) := natArg (args.getD i "0")
+    (natArg code, match kind with
+      | "t" => .table (a 0 % 16)
+      | "st" => .struct (a 0) (a 1)
+      | _ => .string)
+  | _ => (0, .string)
+
+open Flatcc.Verifier in
+def parseSchema (s : String) : Schema :=
+  let parts := s.splitOn "#"
+  let tabs := (parts.getD 0 "").splitOn ";"
+  let uns := if parts.length > 1 then (parts.getD 1 "").splitOn "|" else []
+  { tables := tabs.map (fun t => if t == "_" || t == "" then [] else (t.splitOn ",").map parseField),
+    unions := uns.map (fun u => if u == "_" || u == "" then [] else (u.splitOn ",").map parseMember) }
+
+open Flatcc.Verifier in
+def showAcc (l : List Access) : String :=
+  ",".intercalate (l.map (fun a => s!"{a.addr}:{a.len}:{a.align}"))
+
+open Flatcc.Verifier in
+def verifyOp (S : Schema) (args : List String) : String :=
+  match args with
+  | [root, variant, idS, shiftS, hex] =>
+    let bytes := (hexToBytes hex).toArray
+    let c : Ctx := { buf := fun i => bytes.getD i 0, n := bytes.size, A := 1048576 + natArg shiftS % 4096 }
+    let withSize := variant == "size" || variant == "typedsize"
+    let typed := variant == "typed" || variant == "typedsize"
+    let idb := if idS == "-" then [] else hexToBytes idS
+    let idHash := if idS == "-" then 0
+      else if typed then idb.getD 0 0 + 256 * idb.getD 1 0 + 65536 * idb.getD 2 0 + 16777216 * idb.getD 3 0
+      else hashFromString (idb ++ [0, 0, 0, 0])
+    let b0 := if withSize then 4 else 0
+    if root.startsWith "t" then
+      let t := natArg (root.drop 1).toString % 16
+      let r := if withSize then verifyTableAsRootWithSize S c idHash t else verifyTableAsRoot S c idHash t
+      match r with
+      | .ok _ => "ok " ++ showAcc (⟨b0, 4, 4⟩ :: tableAcc S c 200 (b0 + r32 c b0) t)
+      | .error .oob => "MODEL-OOB"
+      | .error .fuel => "MODEL-FUEL"
+      | .error .reject => "reject"
+    else
+      match root.splitOn ":" with
+      | [_, sz, al] =>
+        let r := if withSize then verifyStructAsRootWithSize c idHash (natArg sz) (natArg al)
+                 else verifyStructAsRoot c idHash (natArg sz) (natArg al)
+        match r with
+        | .ok _ => "ok " ++ showAcc [⟨b0, 4, 4⟩, ⟨b0 + r32 c b0, natArg sz, natArg al⟩]
+        | .error .oob => "MODEL-OOB"
+        | .error .fuel => "MODEL-FUEL"
+        | .error .reject => "reject"
+      | _ => "bad-op"
+  | _ => "bad-op"
+
+structure DrvState where
+  schema : Flatcc.Verifier.Schema := { tables := [], unions := [] }
+
+def stepS (st : DrvState) (line : String) : DrvState × String :=
+  let l := line.trimAscii.toString
+  if l.startsWith "schema " then
+    let S := parseSchema (l.drop 7).toString
+    ({ st with schema := S }, s!"schema {S.tables.length} {S.unions.length}")
+  else match l.splitOn " " with
+    | "verify" :: args => (st, verifyOp st.schema args)
+    | _ => (st, "")
+
 def step (line : String) : String :=
   match line.trimAscii.toString.splitOn " " with
   | "num" :: args => numOp args
@@ -134,13 +222,14 @@ def step (line : String) : String :=
 
 end Drv
 
-partial def loop (h : IO.FS.Stream) (out : IO.FS.Stream) : IO Unit := do
+partial def loop (h : IO.FS.Stream) (out : IO.FS.Stream) (st : Drv.DrvState) : IO Unit := do
   let line ← h.getLine
   if line.isEmpty then return ()
-  out.putStrLn (Drv.step line)
-  loop h out
+  let (st', r) := Drv.stepS st line
+  out.putStrLn (if r.isEmpty then Drv.step line else r)
+  loop h out st'
 
 def main : IO Unit := do
   let out ← IO.getStdout
-  loop (← IO.getStdin) out
+  loop (← IO.getStdin) out {}
   out.flush
